@@ -285,7 +285,7 @@ def validate(recipe, bound: bool = True) -> None:
         nts = nonterminals(recipe)
         assert len(nts) <= 3
         for x in nts:
-            assert sum(1 for r in recipe["rules"] if r["lhs"] == x) <= 2
+            assert sum(1 for r in recipe["rules"] if r["lhs"] == x) <= 3
         for d in el.values():
             assert len(d["type"]) <= 2
         for r in recipe["rules"]:
@@ -1163,6 +1163,48 @@ def handwritten_recursive() -> List[dict]:
                    [("S", ["N0", "N0"], [("X", [0])], []),
                     ("X", ["N0", "N0"], [("t", [0, 1]), ("X", [1])], [0]), ("X", ["N0"], [("b", [0])], [0])],
                    {"t": [[0.5, 0.0], [0.0, 0.0]], "b": [0.0, 1.0]}, {"family": "partly-zero-with-edgeless-internal"}))
+    # a nonterminal whose (zero) value only gets an entry after the other values have stopped changing
+    out.append(_mk({"N0": 2}, {"S": ([], N), "X": ([], N), "a": ([], T), "b": ([], T)}, "S",
+                   [("S", [], [("X", []), ("a", [])], []), ("X", [], [("b", [])], []), ("X", [], [("S", []), ("X", [])], [])],
+                   {"a": 0.5, "b": 0.0}, {"family": "late-zero-entry"}))
+    out.append(_mk({"N0": 2, "N1": 1}, {"S": ([], N), "X": (["N1"], N), "a": (["N1"], T), "b": (["N1"], T), "d": (["N1", "N1"], T)}, "S",
+                   [("S", ["N1"], [("X", [0]), ("a", [0])], []),
+                    ("X", ["N1"], [("b", [0]), ("d", [0, 0])], [0]), ("X", ["N1"], [("S", []), ("X", [0])], [0])],
+                   {"a": [0.35], "b": [0.4], "d": [[0.0]]}, {"family": "late-zero-entry"}))
+    # 7. several linear rules with the same lhs and the same recursive nonterminal (coefficients add up)
+    out.append(_mk({"N0": 2}, {"S": ([], N), "X": ([], N), "a": ([], T), "c": ([], T), "b": ([], T)}, "S",
+                   [("S", [], [("X", [])], []), ("X", [], [("X", []), ("a", [])], []), ("X", [], [("X", []), ("c", [])], []),
+                    ("X", [], [("b", [])], [])],
+                   {"a": 0.3, "c": 0.2, "b": 1.0}, {"family": "linear-two-rules-same-pair"}))
+    out.append(_mk({"N0": 2}, {"S": (["N0"], N), "X": (["N0"], N), "t": (["N0", "N0"], T), "u": (["N0", "N0"], T), "b": (["N0"], T)}, "S",
+                   [("S", ["N0"], [("X", [0])], [0]),
+                    ("X", ["N0", "N0"], [("t", [0, 1]), ("X", [1])], [0]),
+                    ("X", ["N0", "N0"], [("X", [1]), ("u", [1, 0])], [0]),
+                    ("X", ["N0"], [("b", [0])], [0])],
+                   {"t": [[0.2, 0.3], [0.1, 0.0]], "u": [[0.0, 0.2], [0.1, 0.3]], "b": [1.0, 0.5]},
+                   {"family": "linear-two-rules-same-pair-arity1"}))
+    out.append(_mk({"N0": 2}, {"S": ([], N), "X": ([], N), "Y": ([], N), "a": ([], T), "c": ([], T), "b": ([], T)}, "S",
+                   [("S", [], [("X", [])], []), ("X", [], [("Y", []), ("a", [])], []), ("X", [], [("c", []), ("Y", [])], []),
+                    ("Y", [], [("X", []), ("a", [])], []), ("Y", [], [("b", [])], [])],
+                   {"a": 0.4, "c": 0.5, "b": 1.0}, {"family": "linear-two-rules-same-pair-mutual"}))
+    # 8. Log semiring, cycle log-weight slightly below 0, given as log-weights (exp of them is not
+    #    representable, so star() must not go through 1 - exp(x)); value in closed form
+    lb = math.log(0.5)
+    for lc in (-1e-4, -1e-6, -1e-9, -1e-13):
+        v = lb - math.log(-math.expm1(lc))
+        out.append(_mk({"N0": 2}, {"S": ([], N), "X": ([], N), "c": ([], T), "b": ([], T)}, "S",
+                       [("S", [], [("X", [])], []), ("X", [], [("X", []), ("c", [])], []), ("X", [], [("b", [])], [])],
+                       {"c": lc, "b": lb},
+                       {"family": f"log-near-one-cycle{lc:g}", "semirings": ["Log"], "methods": ["linear", "newton"],
+                        "budgets": ["generous"], "closed_form": {"Log": {"S": v, "X": v}}}))
+        out[-1]["weights_log"] = True
+        out.append(_mk({"N0": 2}, {"S": ([], N), "X": ([], N), "Y": ([], N), "a": ([], T), "c": ([], T), "b": ([], T)}, "S",
+                       [("S", [], [("X", [])], []), ("X", [], [("Y", []), ("a", [])], []), ("X", [], [("b", [])], []),
+                        ("Y", [], [("X", []), ("c", [])], [])],
+                       {"a": lc / 2, "c": lc / 2, "b": lb},
+                       {"family": f"log-near-one-mutual{lc:g}", "semirings": ["Log"], "methods": ["linear", "newton"],
+                        "budgets": ["generous"], "closed_form": {"Log": {"S": v, "X": v, "Y": v + lc / 2}}}))
+        out[-1]["weights_log"] = True
     return out
 
 
